@@ -23,8 +23,10 @@ class KickApply:
                 continue
             g, pol = kd[0]
             rhs = A.declref(g["c"][1])
-            A.require(rhs is not None and rhs.get("dkind") == "EnumConstant" and g["op"] == "==",
+            A.require(rhs is not None and rhs.get("dkind") == "EnumConstant" and g["op"] in ("==", "!="),
                       "KickMap::apply: unexpected kick-direction test")
+            if g["op"] == "!=":
+                pol = not pol
             axis = rhs["name"] if pol else {"x": "y", "y": "x"}[rhs["name"]]
             b = self.branches.setdefault(axis, Branch())
             b.axis = axis
